@@ -239,7 +239,7 @@ impl<M: AlignMarker> Ctx<M> {
                 "{}: thread t{} has {} live guard(s){} but its participant shows pinned={} guard_count={}",
                 when, self.tid, u.guards.len(), if u.suspended { " (one suspended by reactivate_after)" } else { "" }, pinned, p.guard_count
             );
-            sim().violation("C16", "pin-state-mismatch", &format!("pin-state-mismatch/{}", if pinned { "pinned-without-guard" } else { "unpinned-with-guard" }), &det);
+            sh.soft("C16", &format!("pin-state-mismatch/{}", if pinned { "pinned-without-guard" } else { "unpinned-with-guard" }), det);
         }
     }
 
@@ -369,13 +369,13 @@ impl<M: AlignMarker> Ctx<M> {
                     if sole {
                         if af.epoch_word & 1 == 1 && (af.epoch_word >> 1) as u64 != global {
                             let det = format!("reactivate on the sole guard of t{} left it announced at epoch {} while the global epoch is {}", tid, af.epoch_word >> 1, global);
-                            sim().violation("C16", "reactivate-stale-epoch", "reactivate-stale-epoch", &det);
+                            shadow().soft("C16", "reactivate-stale-epoch", det);
                         }
                         sim().probe("reactivate_sole");
                     } else {
                         if af.epoch_word != bf.epoch_word && o.k == K::Reactivate {
                             let det = format!("reactivate on a non-sole guard of t{} changed its announced epoch word {:#x} -> {:#x}", tid, bf.epoch_word, af.epoch_word);
-                            sim().violation("C16", "reactivate-nonsole-changed", "reactivate-nonsole-changed", &det);
+                            shadow().soft("C16", "reactivate-nonsole-changed", det);
                         }
                         sim().probe("reactivate_nonsole");
                     }
@@ -1055,6 +1055,7 @@ impl<M: AlignMarker> Ctx<M> {
                     circ::verif::collect(g);
                 }
             }
+            K::QPush | K::QPop | K::QPopIf | K::LIns | K::LDel | K::LTrav => {}
             K::Signal => sim().raise_signal(o.a),
             K::Await => sim().await_signal(tid, o.a),
         }
